@@ -371,10 +371,20 @@ def _main(mod, modname, prop, tier, seed, only, workdir, t0, no_canaries):
 
 def _replay(mod, r, f, workdir, seed):
     d = tempfile.mkdtemp(dir=workdir)
+    # a replay runs the real package on real files: keep it inside the scratch directory ('~' and the working directory)
+    oldhome, oldcwd = os.environ.get("HOME"), os.getcwd()
+    os.makedirs(os.path.join(d, "home"), exist_ok=True)
+    os.environ["HOME"] = os.path.join(d, "home")
     try:
         return mod.replay(r["params"], f["model"], f["notes"], d, seed)
     except Exception as ex:  # noqa: BLE001
         sys.stderr.write("replay crashed for %s: %s: %s\n%s\n" % (r["label"], type(ex).__name__, ex, traceback.format_exc()[-600:]))
         return ["replay crashed: %s: %s" % (type(ex).__name__, ex)] if getattr(mod, "REPLAY_CRASH_IS_FAILURE", False) else []
     finally:
+        if oldhome is not None:
+            os.environ["HOME"] = oldhome
+        try:
+            os.chdir(oldcwd)
+        except OSError:
+            pass
         shutil.rmtree(d, ignore_errors=True)
